@@ -189,14 +189,38 @@ func (g *gor) where() (inner, callee, outer string, innerIdx int) {
 
 // Blocked is the analysis of one open call.
 type Blocked struct {
-	InRepo   bool     `json:"in_repo"`
-	Inner    string   `json:"blocked_in,omitempty"`
-	Callee   string   `json:"on,omitempty"`
-	State    string   `json:"state,omitempty"`
-	WaitsFor []string `json:"waits_for,omitempty"`
-	Victims  int      `json:"other_goroutines_queued_on_the_same_lock,omitempty"`
-	Stack    []string `json:"stack,omitempty"`
-	Related  []string `json:"related_stacks,omitempty"`
+	InRepo    bool     `json:"in_repo"`
+	Inner     string   `json:"blocked_in,omitempty"`
+	Callee    string   `json:"on,omitempty"`
+	State     string   `json:"state,omitempty"`
+	WaitsFor  []string `json:"waits_for,omitempty"`
+	Victims   int      `json:"other_goroutines_queued_on_the_same_lock,omitempty"`
+	Transient bool     `json:"-"`
+	Stack     []string `json:"stack,omitempty"`
+	Related   []string `json:"related_stacks,omitempty"`
+}
+
+func blockingState(st string) bool {
+	for _, k := range []string{"IO wait", "select", "chan send", "chan receive", "semacquire", "sync.Cond.Wait", "sync.Mutex.Lock", "sync.RWMutex"} {
+		if strings.Contains(st, k) {
+			return true
+		}
+	}
+	return false
+}
+
+// analyseOpen takes goroutine dumps until the goroutines related to the blocked caller are all parked
+// (a reconnect that happens to arrive at the same moment would otherwise colour the picture).
+func analyseOpen(gid string) Blocked {
+	var b Blocked
+	for i := 0; i < 8; i++ {
+		b = analyseBlocked(fullDump(), gid)
+		if !b.Transient {
+			break
+		}
+		time.Sleep(150 * time.Millisecond)
+	}
+	return b
 }
 
 func analyseBlocked(dump, gid string) Blocked {
@@ -235,12 +259,11 @@ func analyseBlocked(dump, gid string) Blocked {
 		if g.id == gid {
 			continue
 		}
-		// innermost repository frame of g that has the same receiver as a frame of the blocked caller
+		// outermost repository frame of g that has the same receiver as a frame of the blocked caller
 		hit := ""
 		for _, f := range g.frames {
 			if strings.HasPrefix(f.fn, repoPrefix) && ptrs[firstArg(f.args)] {
 				hit = shortFn(f.fn)
-				break
 			}
 		}
 		if hit == "" {
@@ -251,6 +274,9 @@ func analyseBlocked(dump, gid string) Blocked {
 		if cal == callee && strings.Contains(cal, "Lock") {
 			b.Victims++
 			continue
+		}
+		if !blockingState(g.state) {
+			b.Transient = true
 		}
 		if !seen[hit] {
 			seen[hit] = true
